@@ -35,6 +35,19 @@ TAGS = {
     "size > MAX_TX_SIZE": "size_limit",
 }
 
+_RULE_TAG = None
+
+
+def canon(op: str, out: str) -> str:
+    """the property says WHETHER check() rejects, not with which message or for which of several defects: rule tags (and
+    the tag for a message the table above does not know) are compared as `rejected`"""
+    global _RULE_TAG
+    if _RULE_TAG is None:
+        import re
+        _RULE_TAG = re.compile(r"\b(%s|unknown_message)\b" % "|".join(sorted(TAGS.values())))
+    return _RULE_TAG.sub("rejected", out)
+
+
 # the property's constants, written down independently of the code
 COIN = 10 ** 8
 REF_MAX_MONEY = {"btc": 21_000_000 * COIN, "ltc": 21_000_000 * COIN, "bch": 21_000_000 * COIN, "btg": 21_000_000 * COIN,
@@ -42,6 +55,7 @@ REF_MAX_MONEY = {"btc": 21_000_000 * COIN, "ltc": 21_000_000 * COIN, "bch": 21_0
 REF_MAX_SIZE = 1_000_000
 
 _PURE: dict = {}
+_AMBIENT: dict = {}
 _HIST: dict = {}
 
 
@@ -82,6 +96,21 @@ def impl(op: str) -> str:
         except Exception as e:  # noqa: BLE001
             res = "err raised:" + type(e).__name__
         _PURE[op] = before == _snapshot(tx)
+        # ambient state: MAX_MONEY is a decimal.Decimal (SATOSHI_PER_COIN is), so arithmetic on it is rounded to the thread's
+        # decimal context; the verdict must not depend on a context precision the application has lowered
+        if not any(len(s) > 2000 for _h, _i, s, _q, _w in f[2]) and not any(len(s) > 2000 for _v, s in f[3]):
+            import decimal
+            with decimal.localcontext() as dctx:
+                dctx.prec = 6
+                try:
+                    tx.check()
+                    low = "ok"
+                except ValidationFailureError as e:
+                    low = "err " + TAGS.get(str(e), "unknown_message")
+                except Exception as e:  # noqa: BLE001
+                    low = "err raised:" + type(e).__name__
+            if low != res:
+                _AMBIENT[op] = low
         return res
     if k == "is_coinbase":
         return "ok %d" % (1 if tx.is_coinbase() else 0)
@@ -143,6 +172,8 @@ def _oracle(op: str, out: str):
         # the property's list on the fields as they are at each `check` step (an independent replay of the mutators)
         return _hist_reference(coin, f, a[3].split("!"), out)
     if k == "check_tx":
+        if op in _AMBIENT:
+            return "check() answers %s under a decimal context of precision 6 and %s under the default context" % (_AMBIENT[op], out)
         if _PURE.get(op) is False:
             return "check() modified the transaction (as_bin / fields / object lists differ before and after)"
         d = ref_defects(coin, f)
